@@ -97,7 +97,11 @@ type ReqSpec struct {
 	// JSONKeyCase: the body spells its keys in another case than the json names (1 upper, 2 lower, 3 first letter
 	// swapped). The body decoder matches keys ignoring case when no key matches exactly (encoding/json rules, which
 	// sonic follows), so the body is as present as with the exact spelling.
-	JSONKeyCase int                            `json:"json_key_case,omitempty"`
+	JSONKeyCase int `json:"json_key_case,omitempty"`
+	// NestedDecoy: beside the flattened keys ("j.f1") the body has an object under the part before the dot: 1 an
+	// empty one ("j":{}), 2 one with members named like the parts behind the dot ("j":{"f1":..}). Neither is
+	// the key the tag names.
+	NestedDecoy int                            `json:"nested_decoy,omitempty"`
 	Values      map[string]map[string][]string `json:"values"` // field -> source -> texts
 }
 
@@ -235,6 +239,9 @@ func genFields(t *rapid.T) []FieldSpec {
 						key, uaUsed = "User-Agent", true // a header hertz keeps in a field of its own
 					}
 				}
+				if s == "json" && rapid.IntRange(0, 4).Draw(t, "dottedJSONName") == 0 {
+					key = fmt.Sprintf("j.f%d", i) // a flattened key name ("user.name"); the dot is part of the name
+				}
 				if s != "header" && s != "cookie" && rapid.IntRange(0, 7).Draw(t, "emptyTagName") == 0 {
 					key = "" // `query:""` / `query:",required"`: the key falls back to the field name
 				}
@@ -340,6 +347,14 @@ func genReq(t *rapid.T, fs []FieldSpec, allowInvalid bool) (ReqSpec, bool) {
 	}
 	if r.Body == "json" && rapid.IntRange(0, 3).Draw(t, "jsonKeysInAnotherCase") == 0 {
 		r.JSONKeyCase = rapid.IntRange(1, 3).Draw(t, "jsonKeyCase")
+	}
+	if r.Body == "json" {
+		for i := range fs {
+			if strings.HasPrefix(fs[i].Tags["json"], "j.") {
+				r.NestedDecoy = rapid.IntRange(0, 2).Draw(t, "nestedDecoy")
+				break
+			}
+		}
 	}
 	r.Recycled = rapid.IntRange(0, 2).Draw(t, "recycledRequest") == 0
 	r.NoNorm = rapid.IntRange(0, 3).Draw(t, "headerNamesNotNormalized") == 0
@@ -464,6 +479,22 @@ func encode(fs []FieldSpec, r ReqSpec) ([]byte, param.Params) {
 			}
 			jsonParts = append(jsonParts, strconv.Quote(f.Name)+":"+decoy)
 		}
+	}
+	if r.Body == "json" && r.NestedDecoy != 0 {
+		var members []string
+		for i := range fs {
+			if f := &fs[i]; strings.HasPrefix(f.Tags["json"], "j.") && r.NestedDecoy == 2 {
+				decoy := map[reflect.Kind]string{reflect.String: `"decoy"`, reflect.Bool: "true"}[f.kind]
+				if decoy == "" {
+					decoy = "1"
+				}
+				if f.Shape == "slice" {
+					decoy = "[" + decoy + "]"
+				}
+				members = append(members, strconv.Quote(strings.TrimPrefix(f.Tags["json"], "j."))+":"+decoy)
+			}
+		}
+		jsonParts = append(jsonParts, `"j":{`+strings.Join(members, ",")+"}")
 	}
 	target := "/bind"
 	if len(q) > 0 {
@@ -698,6 +729,9 @@ func classify(c *genCase) (bool, []string) {
 	}
 	if c.Req.JSONKeyCase != 0 {
 		cls = append(cls, "json-keys-in-another-case")
+	}
+	if c.Req.NestedDecoy != 0 {
+		cls = append(cls, "nested-decoy-beside-dotted-json-name")
 	}
 	nt := false
 	for i := range c.Fields {
